@@ -1,7 +1,8 @@
 (* C13 - Membership functions, fuzzy operators and gain scheduling stay within range.
    Models: C13/MfDefs.v (src/mf.c, include/a/fuzzy.h, src/fuzzy.c) and C13/FuzzyDefs.v (src/pid_fuzzy.c on top of
-   C12/PidDefs.v), as the code is after the three fix: commits (lins/linz at x = a = b, tri at b = c, zero joint membership
-   sum).  Proofs: C13/MfProofs.v, MfCont.v, MfExtra.v, OprProofs.v, FuzzyLimits.v, FuzzyProofs.v, FuzzyGains.v;
+   C12/PidDefs.v), as the code is after the fix: commits (lins/linz at x = a = b, tri at b = c, zero joint membership
+   sum, and a_mf_s / a_mf_z testing the end points before the computed midpoint - found by the rounded-arithmetic
+   theorems at the end of this file).  Proofs: C13/MfProofs.v, MfCont.v, MfExtra.v, OprProofs.v, FuzzyLimits.v, FuzzyProofs.v, FuzzyGains.v;
    non-vacuity: C13/Examples.v.  All theorems are over Coq's reals, instance R13_ops (C13/R13Ops.v: exp is Coq's exp,
    pow is the real power function Rpow).  Rounding is not part of the statements; the binary64 instance of the same
    terms is compared bit for bit with the C by checks/C13.py.
@@ -175,7 +176,8 @@ Proof. exact mf_reads_arity. Qed.
 Print Assumptions C13_mf_dispatch_reads.
 
 (* the code AS FOUND (before the fix: commits): the ramp divided 0 by 0 at x = a = b, the right-angled triangle was 0 at
-   its peak; elsewhere the repaired functions agree with the ones found *)
+   its peak; elsewhere the repaired functions agree with the ones found.  S and Z as found (midpoint tested first) are the
+   same REAL functions as the repaired ones for every a <= b; they differ in binary64: C13_b64_sz_as_found_refuted *)
 Theorem C13_lins_as_found_refuted : exists x a b, a <= b /\ ~ lins_orig_defined x a b.
 Proof. exact lins_orig_undefined. Qed.
 Print Assumptions C13_lins_as_found_refuted.
@@ -186,7 +188,8 @@ Print Assumptions C13_tri_as_found_refuted.
 
 Theorem C13_repairs_conservative :
   (forall x a b, a < b -> mf_lins_orig RO x a b = mf_lins RO x a b /\ mf_linz_orig RO x a b = mf_linz RO x a b) /\
-  (forall x a b c, b < c -> mf_tri_orig RO x a b c = mf_tri RO x a b c).
+  (forall x a b c, b < c -> mf_tri_orig RO x a b c = mf_tri RO x a b c) /\
+  (forall x a b, a <= b -> mf_s_orig RO x a b = mf_s RO x a b /\ mf_z_orig RO x a b = mf_z RO x a b).
 Proof. exact repairs_conservative. Qed.
 Print Assumptions C13_repairs_conservative.
 
@@ -370,7 +373,11 @@ Print Assumptions C13_zero_sum_keeps_base.
    0 <= P u 2, P u 2 monotone in u >= 0; Rnd13_ops rnd is the correctly rounded case).  unitR v := 0 <= v <= 1.
    mono_rnd rnd: monotone, rnd 0 = 0, rnd 1 = 1, rnd (-x) = - rnd x.  nz rnd a b := a < b -> rnd (b - a) <> 0 (no flush
    to zero on the subtraction whose result is divided by).  mid rnd a b := rnd (rnd (a + b) / 2), the computed midpoint.
-   sz_ok rnd P a b := 2 P (rnd (rnd (b - mid) / rnd (b - a))) 2 <= 1 /\ 2 P (rnd (rnd (mid - a) / rnd (b - a))) 2 <= 1. *)
+   sz_in rnd P x a b := a < x < b -> (mid <= x -> 2 P (rnd (rnd (b - x) / rnd (b - a))) 2 <= 1) /\
+                                     (x <= mid -> 2 P (rnd (rnd (x - a) / rnd (b - a))) 2 <= 1)
+     (the quadratic branch that the repaired a_mf_s / a_mf_z execute at x; nothing is required outside (a,b)).
+   sz_ok rnd P a b := 2 P (rnd (rnd (b - mid) / rnd (b - a))) 2 <= 1 /\ 2 P (rnd (rnd (mid - a) / rnd (b - a))) 2 <= 1
+     (the parameter-only condition that the midpoint-first code needed; it implies sz_in for every x). *)
 From LibaV Require Import Common.RoundOps Common.RoundFlocq Common.RoundMono C13.MfRound.
 
 (* piecewise-linear families: in [0,1] ... *)
@@ -397,31 +404,59 @@ Theorem C13_round_ramp_core_support : forall rnd, mono_rnd rnd ->
 Proof. exact round_ramp_core_support. Qed.
 Print Assumptions C13_round_ramp_core_support.
 
-(* piecewise-quadratic families: range under the midpoint condition sz_ok, core/support when the computed midpoint
-   separates the ends *)
+(* piecewise-quadratic families (repaired: end points tested before the computed midpoint): exactly 1 on the core and
+   exactly 0 outside the support with NO midpoint condition - the statements of C13_mf_core / C13_mf_support; range under
+   sz_in, which holds outside (a,b) and under the old parameter condition sz_ok *)
 Theorem C13_round_sz : forall rnd E P, mono_rnd rnd -> rnd 2 = 2 -> orc_ok E P ->
-  (forall x a b, a <= b -> sz_ok rnd P a b -> unitR (mf_s (Orc_ops rnd E P) x a b) /\ unitR (mf_z (Orc_ops rnd E P) x a b)) /\
-  (forall x a b c d, a <= b -> c <= d -> sz_ok rnd P a b -> sz_ok rnd P c d -> unitR (mf_pi (Orc_ops rnd E P) x a b c d)) /\
-  (forall x a b, mid rnd a b < b -> b <= x -> mf_s (Orc_ops rnd E P) x a b = 1) /\
-  (forall x a b, a <= mid rnd a b -> x <= a -> mf_s (Orc_ops rnd E P) x a b = 0) /\
-  (forall x a b, a < mid rnd a b -> x <= a -> mf_z (Orc_ops rnd E P) x a b = 1) /\
-  (forall x a b, mid rnd a b <= b -> b <= x -> mf_z (Orc_ops rnd E P) x a b = 0) /\
+  (forall x a b, sz_in rnd P x a b -> unitR (mf_s (Orc_ops rnd E P) x a b) /\ unitR (mf_z (Orc_ops rnd E P) x a b)) /\
+  (forall x a b c d, sz_in rnd P x a b -> sz_in rnd P x c d -> unitR (mf_pi (Orc_ops rnd E P) x a b c d)) /\
+  (forall x a b, (x <= a \/ b <= x \/ sz_ok rnd P a b) -> sz_in rnd P x a b) /\
+  (forall x a b, a < b -> b <= x -> mf_s (Orc_ops rnd E P) x a b = 1) /\
+  (forall x a b, x <= a -> mf_s (Orc_ops rnd E P) x a b = 0) /\
+  (forall x a b, x <= a -> a < b -> mf_z (Orc_ops rnd E P) x a b = 1) /\
+  (forall x a b, b <= x -> mf_z (Orc_ops rnd E P) x a b = 0) /\
   (forall x a b c d, b <= x <= c -> mf_pi (Orc_ops rnd E P) x a b c d = 1) /\
-  (forall x a b c d, a < b -> a <= mid rnd a b -> x <= a -> mf_pi (Orc_ops rnd E P) x a b c d = 0) /\
-  (forall x a b c d, b <= c -> c < d -> mid rnd c d <= d -> d <= x -> mf_pi (Orc_ops rnd E P) x a b c d = 0).
+  (forall x a b c d, a <= b -> c <= d -> b <= c ->
+     (x <= a /\ a < b \/ x < a \/ d <= x /\ c < d \/ d < x) -> mf_pi (Orc_ops rnd E P) x a b c d = 0).
 Proof. exact round_sz. Qed.
 Print Assumptions C13_round_sz.
 
-(* without the midpoint conditions S and Z leave [0,1] in IEEE binary64 with correctly rounded pow: for adjacent
-   parameters (u52 = 2^-52) a + b is a tie that rounds onto 2b (2a), the computed midpoint is b (a), and the value on the
-   core is 2.  The C functions a_mf_s / a_mf_z return 2 on these inputs. *)
-Theorem C13_b64_sz_refuted :
-  (exists x a b, rnd64 x = x /\ rnd64 a = a /\ rnd64 b = b /\ a < b /\ b <= x /\ mf_s (Rnd13_ops rnd64) x a b = 2) /\
-  (exists x a b, rnd64 x = x /\ rnd64 a = a /\ rnd64 b = b /\ a < b /\ x <= a /\ mf_z (Rnd13_ops rnd64) x a b = 2) /\
-  mf_s (Rnd13_ops rnd64) (1 + 2 * u52) (1 + u52) (1 + 2 * u52) = 2 /\
-  mf_z (Rnd13_ops rnd64) (1 + 2 * u52) (1 + 2 * u52) (1 + 3 * u52) = 2.
-Proof. exact b64_sz_refuted. Qed.
-Print Assumptions C13_b64_sz_refuted.
+(* IEEE binary64 with correctly rounded pow: S, Z and pi lie in [0,1] for ALL binary64 numbers x and parameters - no
+   ordering, no midpoint condition.  Reason (C13/MfMid64.v): for binary64 numbers a < x < b the ratio of the rounded
+   differences on the executed branch is at most 11/16 (2/3 before rounding, attained at a = 1 - 2^-53, x = 1, b = 1 + 2^-52;
+   1/2 over the reals), and 2 (11/16)^2 < 1. *)
+Theorem C13_b64_sz_pi_range :
+  (forall x a b, rnd64 x = x -> rnd64 a = a -> rnd64 b = b ->
+     unitR (mf_s (Rnd13_ops rnd64) x a b) /\ unitR (mf_z (Rnd13_ops rnd64) x a b)) /\
+  (forall x a b c d, rnd64 x = x -> rnd64 a = a -> rnd64 b = b -> rnd64 c = c -> rnd64 d = d ->
+     unitR (mf_pi (Rnd13_ops rnd64) x a b c d)) /\
+  (forall x a b, rnd64 x = x -> rnd64 a = a -> rnd64 b = b -> a < x < b ->
+     (rnd64 (rnd64 (a + b) / 2) <= x -> rnd64 (b - x) / rnd64 (b - a) <= 11 / 16) /\
+     (x <= rnd64 (rnd64 (a + b) / 2) -> rnd64 (x - a) / rnd64 (b - a) <= 11 / 16)).
+Proof. exact b64_sz_pi_range. Qed.
+Print Assumptions C13_b64_sz_pi_range.
+
+(* sz_in cannot be dropped from C13_round_sz: a monotone, odd rounding fixing 0, 1, 2 (identity outside (-1,1), nearest of
+   -1, 0, 1 inside) makes the repaired a_mf_s(1; 0, 2) = 2 *)
+Theorem C13_round_sz_needs_condition : exists rnd,
+  mono_rnd rnd /\ rnd 2 = 2 /\ orc_ok (fun x => rnd (exp x)) (fun x y => rnd (Rpow x y)) /\
+  exists x a b, rnd x = x /\ rnd a = a /\ rnd b = b /\ a < b /\ nz rnd a b /\ mf_s (Rnd13_ops rnd) x a b = 2.
+Proof. exact mono_rnd_not_enough. Qed.
+Print Assumptions C13_round_sz_needs_condition.
+
+(* the bodies AS FOUND (mf_s_orig / mf_z_orig: computed midpoint tested first) leave [0,1] in IEEE binary64 with correctly
+   rounded pow: for adjacent parameters (u52 = 2^-52) a + b is a tie that rounds onto 2b (2a), the computed midpoint is b
+   (a), and the value on the core is 2.  The unrepaired C functions a_mf_s / a_mf_z return 2 on these inputs; the repaired
+   bodies return 1. *)
+Theorem C13_b64_sz_as_found_refuted :
+  (exists x a b, rnd64 x = x /\ rnd64 a = a /\ rnd64 b = b /\ a < b /\ b <= x /\ mf_s_orig (Rnd13_ops rnd64) x a b = 2) /\
+  (exists x a b, rnd64 x = x /\ rnd64 a = a /\ rnd64 b = b /\ a < b /\ x <= a /\ mf_z_orig (Rnd13_ops rnd64) x a b = 2) /\
+  mf_s_orig (Rnd13_ops rnd64) (1 + 2 * u52) (1 + u52) (1 + 2 * u52) = 2 /\
+  mf_z_orig (Rnd13_ops rnd64) (1 + 2 * u52) (1 + 2 * u52) (1 + 3 * u52) = 2 /\
+  mf_s (Rnd13_ops rnd64) (1 + 2 * u52) (1 + u52) (1 + 2 * u52) = 1 /\
+  mf_z (Rnd13_ops rnd64) (1 + 2 * u52) (1 + 2 * u52) (1 + 3 * u52) = 1.
+Proof. exact b64_sz_as_found_refuted. Qed.
+Print Assumptions C13_b64_sz_as_found_refuted.
 
 (* families built on exp / pow: in [0,1] for every oracle pair satisfying orc_ok *)
 Theorem C13_round_smooth_range : forall rnd E P, mono_rnd rnd -> rnd 2 = 2 -> orc_ok E P ->
@@ -472,9 +507,13 @@ Theorem C13_b64_smooth_range :
 Proof. exact b64_smooth_range. Qed.
 Print Assumptions C13_b64_smooth_range.
 
-(* non-vacuity of the midpoint and no-flush conditions: a = 0, b = 4 in binary64 (mid = 2, both ratios 1/2) *)
+(* non-vacuity: the hypotheses of C13_b64_sz_pi_range at a point strictly inside (a,b), where a quadratic branch IS
+   executed, with the values computed there in binary64; and the old parameter condition sz_ok and the no-flush condition
+   at a = 0, b = 4 (mid = 2, both ratios 1/2) *)
 Theorem C13_b64_sz_hypotheses_satisfiable :
-  0 <= 4 /\ sz_ok rnd64 (fun x y => rnd64 (Rpow x y)) 0 4 /\
-  0 < mid rnd64 0 4 < 4 /\ nz rnd64 0 4 /\ rnd64 0 = 0 /\ rnd64 4 = 4.
-Proof. exact sz_ok_ex. Qed.
+  (0 < 1 < 4 /\ sz_in rnd64 (fun x y => rnd64 (Rpow x y)) 1 0 4 /\
+   mf_s (Rnd13_ops rnd64) 1 0 4 = / 8 /\ mf_z (Rnd13_ops rnd64) 1 0 4 = 7 / 8) /\
+  (0 <= 4 /\ sz_ok rnd64 (fun x y => rnd64 (Rpow x y)) 0 4 /\
+   0 < mid rnd64 0 4 < 4 /\ nz rnd64 0 4 /\ rnd64 0 = 0 /\ rnd64 4 = 4).
+Proof. exact (conj sz_in_ex sz_ok_ex). Qed.
 Print Assumptions C13_b64_sz_hypotheses_satisfiable.
